@@ -6,3 +6,10 @@ import Peppi.Props.C08
 #print axioms Peppi.Props.C08.rowOrEof_extra
 #print axioms Peppi.Props.C08.C05_start_long
 #print axioms Peppi.Props.C08.C05_end_long
+#print axioms Peppi.Props.C08.readP_gen
+#print axioms Peppi.Props.C08.readP_irregular
+#print axioms Peppi.Props.C08.C08_any
+#print axioms Peppi.Props.C08.exampleIrr_A
+#print axioms Peppi.Props.C08.exampleIrr_B
+#print axioms Peppi.Props.C08.exampleIrr_C
+#print axioms Peppi.Props.C08.exampleIrr_G
